@@ -133,6 +133,30 @@ func (p c05) Gen(r *simhook.Rand, tier string, idx int) harness.Scenario {
 		sc.HorizonS = 900
 		return sc
 	}
+	if !sc.Headerless && r.Chance(1, 10) {
+		// class "members-reannounced": discovery announces endpoints that are members already (same address, same type,
+		// fresh objects - what an "endpoints added" update that repeats known ones looks like) while paced streams to
+		// them are under way.  Nothing about the membership changes, so no established relay may notice.
+		sc.Class = "members-reannounced"
+		nb := 1 + r.Intn(3)
+		sc.Env.Backends = nb
+		sc.Env.IdleMs = 600000
+		for i := 0; i < 1+r.Intn(3); i++ {
+			sc.Faults = append(sc.Faults, TCPFault{Kind: "host-add", Node: r.Intn(nb), AtMs: 400 + r.Intn(3000)})
+		}
+		for i := 0; i < 2+r.Intn(5); i++ {
+			mk := func() StreamSpec {
+				chunk := 100 + r.Intn(900)
+				return StreamSpec{Len: chunk * (4 + r.Intn(30)), Chunks: []int{chunk}, GapMs: []int{50 + r.Intn(150)}}
+			}
+			sc.Conns = append(sc.Conns, TCPConn{Name: fmt.Sprintf("c%d", i), C2S: mk(), S2C: mk(), AfterMs: 100 + r.Intn(600)})
+		}
+		if sc.Env.ConnLimit > 0 && int(sc.Env.ConnLimit) < len(sc.Conns) {
+			sc.Env.ConnLimit = uint32(len(sc.Conns))
+		}
+		sc.HorizonS = 900
+		return sc
+	}
 	defer func() {
 		// no direction may be idle for longer than the idle timeout (the relay half-closes an idle direction, which
 		// is the documented idle-timeout behaviour and outside this property): make the timeout exceed every pause
